@@ -221,6 +221,7 @@ func sortedKeys(m map[string]*rnode) []string {
 type walkInfo struct {
 	keys      []qkey
 	path      string // the walk spelled as a concrete path, "" when it has no spelling
+	mismatch  bool   // the last key is of a kind the value there does not have: never asserted
 	throughTD bool   // a step is taken below a typedef'd type
 }
 
@@ -316,11 +317,28 @@ func (g *pgen) genWalk(root *rnode) walkInfo {
 			next = g.sc.resolve(cur.elem)
 		default:
 			end = true
-			if i == 0 {
-				return w
+		}
+		if !end && cur.kind != kScalar && rapid.IntRange(0, 15).Draw(g.rt, "mismatch") == 0 {
+			// a query of the wrong kind for this value (only "no panic" is asserted)
+			var mq qkey
+			switch {
+			case cur.kind != kStruct && !g.k[fFieldNonStruct]:
+				mq = qkey{K: "f", I: 1}
+			case cur.kind == kStruct || cur.kind == kStrMap:
+				mq = qkey{K: "i", I: 1}
+			default:
+				mq = qkey{K: "s", S: "a"}
 			}
-			i = n
-			continue
+			if cur.kind != kStruct && g.k[fFieldNonStruct] {
+				vt.Excluded(fFieldNonStruct)
+			}
+			w.keys = append(w.keys, mq)
+			w.mismatch = true
+			spell = false
+			break
+		}
+		if cur.kind == kScalar {
+			break
 		}
 		w.keys = append(w.keys, q)
 		if rn != nil {
@@ -341,15 +359,36 @@ func (g *pgen) genWalk(root *rnode) walkInfo {
 	return w
 }
 
-func judgeSkips(k knownSet, typedefs bool) []string {
+type skipFacts struct{ typedefs, negIDs, starNested bool }
+
+func starNested(paths [][]pstep) bool {
+	for _, p := range paths {
+		for i := 0; i+1 < len(p); i++ {
+			if p[i].star && p[i].kind != 0 && p[i+1].kind != 0 {
+				return true
+			}
+		}
+	}
+	return false
+}
+
+func judgeSkips(k knownSet, f skipFacts) []string {
+	typedefs, negIDs := f.typedefs, f.negIDs
 	var s []string
-	for _, id := range []string{fForEachNil, fForEachEmpty} {
+	for _, id := range []string{fForEachNil, fForEachEmpty, fFieldNonStruct} {
 		if k[id] {
 			s = append(s, id)
 		}
 	}
 	if k[fStringTypedef] && typedefs {
-		s = append(s, fStringTypedef)
+		vt.Excluded(fStringTypedef)
+		s = append(s, skipString)
+	} else if k[fNegID] && negIDs {
+		vt.Excluded(fNegID)
+		s = append(s, skipString)
+	} else if k[fStringNested] && f.starNested {
+		vt.Excluded(fStringNested)
+		s = append(s, skipString)
 	}
 	return s
 }
@@ -385,13 +424,13 @@ func expand(steps []pstep) [][]pstep {
 		var nout [][]pstep
 		for _, p := range out {
 			for _, a := range alts {
-				if len(nout) >= 24 {
-					break
-				}
 				nout = append(nout, append(append([]pstep{}, p...), a))
 			}
 		}
 		out = nout
+		if len(out) > 24 {
+			return [][]pstep{steps} // too many combinations: keep the path grouped
+		}
 	}
 	return out
 }
@@ -402,7 +441,6 @@ func genMaskCase(rt *rapid.T) (maskCase, pathStats) {
 	g := &pgen{rt: rt, sc: sc, k: k, root: shape{kind: kStruct, st: sc.structs[0]}}
 	c := maskCase{IDL: sc.render(), Root: sc.structs[0].name, Mode: "valid"}
 	c.Black = rapid.Bool().Draw(rt, "black")
-	c.Skip = judgeSkips(k, len(sc.typedefs) > 0)
 	c.Cached = rapid.IntRange(0, 3).Draw(rt, "cached") == 0
 	modeSel := rapid.IntRange(0, 9).Draw(rt, "mode")
 	allowConflict := modeSel == 6
@@ -453,6 +491,7 @@ func genMaskCase(rt *rapid.T) (maskCase, pathStats) {
 	for _, p := range g.paths {
 		c.Paths = append(c.Paths, renderPath(p))
 	}
+	c.Skip = judgeSkips(k, skipFacts{len(sc.typedefs) > 0, len(sc.negNames()) > 0, starNested(g.paths)})
 	switch {
 	case conflict:
 		c.Mode = "conflict"
@@ -510,9 +549,17 @@ func genMaskCase(rt *rapid.T) (maskCase, pathStats) {
 			continue
 		}
 		exp := walkRef(ref, w.keys, c.Black)
+		if w.mismatch {
+			exp[len(exp)-1] = stepExp{Pass: -1}
+		}
 		c.Walks = append(c.Walks, walkQ{Keys: w.keys, Exp: exp})
 		if w.path != "" {
 			q := pathQ{Path: w.path, Exp: pathVerdict(exp)}
+			if ref == nil {
+				// README: "A empty mask means PASS ALL", yet no path is "in" an empty
+				// mask: PathInMask on the empty mask is not asserted either way
+				q.Exp = -1
+			}
 			if w.throughTD && k[fTypedefPath] {
 				q.Exp = -1
 				vt.Excluded(fTypedefPath)
@@ -687,10 +734,12 @@ func knownPathShape(p string, k knownSet, negNames ...string) string {
 				}
 			}
 			if i > len(p) {
+				// a backslash as the very last byte of an open quote: the library slices
+				// past the end before it ever unquotes
 				if k[fQuoteEOF] {
 					return fQuoteEOF
 				}
-				i = len(p)
+				return ""
 			}
 			v, err := strconv.Unquote(p[pos:i])
 			if err != nil {
@@ -703,6 +752,9 @@ func knownPathShape(p string, k knownSet, negNames ...string) string {
 			pos = i
 			prevDot = false
 		case strings.IndexByte(seps, c) >= 0:
+			if c == '$' && pos > 0 && k[fLenientRoot] {
+				return fLenientRoot
+			}
 			pos++
 			prevDot = c == '.'
 		default:
@@ -750,7 +802,6 @@ func genSoupCase(rt *rapid.T) maskCase {
 	g := &pgen{rt: rt, sc: sc, k: k, root: shape{kind: kStruct, st: sc.structs[0]}}
 	c := maskCase{IDL: sc.render(), Root: sc.structs[0].name, Mode: "soup"}
 	c.Black = rapid.Bool().Draw(rt, "black")
-	c.Skip = judgeSkips(k, len(sc.typedefs) > 0)
 	c.Cached = rapid.IntRange(0, 7).Draw(rt, "cached") == 0
 	var names []string
 	for _, st := range sc.structs {
@@ -812,6 +863,7 @@ func genSoupCase(rt *rapid.T) maskCase {
 	if len(c.Paths) == 0 {
 		c.Paths = []string{"$"}
 	}
+	c.Skip = judgeSkips(k, skipFacts{len(sc.typedefs) > 0, len(sc.negNames()) > 0, strings.Contains(strings.Join(c.Paths, ""), "*")})
 	for i := 0; i < 2; i++ {
 		if w := g.genWalk(nil); len(w.keys) > 0 {
 			c.Walks = append(c.Walks, walkQ{Keys: w.keys})
@@ -937,7 +989,7 @@ func genNode(rt *rapid.T, depth int, root bool) map[string]interface{} {
 
 func genJSONCase(rt *rapid.T) jsonCase {
 	k := known()
-	c := jsonCase{Skip: judgeSkips(k, true)}
+	c := jsonCase{Skip: judgeSkips(k, skipFacts{})}
 	tok := func() string { return rapid.SampledFrom(jsonTokens).Draw(rt, "jtok") }
 	switch rapid.IntRange(0, 9).Draw(rt, "json_class") {
 	case 0:
